@@ -12,8 +12,10 @@ def work(f):
     from checks import c02
     out = []
     for n in f["resolutions"]:
-        e, steps, finite = c02.run_one(f["kind"], n, f["centre"], f["strength"], f["nu"], f["direction"], f["dtype"])
+        e, steps, finite, eu = c02.run_one(f["kind"], n, f["centre"], f["strength"], f["nu"], f["direction"], f["dtype"], f.get("aspect", "square"))
         out.append((f"{f['kind']}|{f['dtype']}|{n}", e))
+        if f["kind"] == "ns2d":
+            out.append((f"{f['kind']}|{f['dtype']}|{n}|velocity", eu))
     return out
 
 if __name__ == "__main__":
